@@ -481,30 +481,30 @@ def c08_repeat_task(arg):
 
 def c08_show_filters_task(_):
     """`log show` with every combination of stream flags, target filter and command filter on one stored
-    run (2 targets x 2 commands, one stream of one task empty): one header per selected non-empty log
+    run (2 targets x 3 commands - one of them named `build.release`, a name with a dot that shares its stem with `build` - one stream of one task empty): one header per selected non-empty log
     followed by its bytes, nothing else."""
     import itertools
     s = sc.Scratch("c08show")
     try:
         ts = [{"path": "t0"}, {"path": "t1"}]
-        r = sc.Repo(s, "r", ts, commands={t["path"]: {"build": "x", "test": "x"} for t in ts}, init_git=False)
+        r = sc.Repo(s, "r", ts, commands={t["path"]: {"build": "x", "test": "x", "build.release": "x"} for t in ts}, init_git=False)
         want = {}
         for t in ("t0", "t1"):
-            for c in ("build", "test"):
+            for c in ("build", "test", "build.release"):
                 so = ("%s %s stdout line\nsecond\n" % (t, c)).encode()
                 se = b"" if (t, c) == ("t1", "test") else ("%s %s stderr\n" % (t, c)).encode()
                 lines = ["out " + so.hex()] + (["err " + se.hex()] if se else []) + ["exit 0"]
                 r.set_script(t, c, lines)
                 want[("stdout.zst", t, c)] = so
                 want[("stderr.zst", t, c)] = se
-        res = r.mr("run", "-c", "build", "test", env=r.trace_env())
+        res = r.mr("run", "-c", "build", "test", "build.release", env=r.trace_env())
         if res.code != 0:
             return {"judged": 1, "v": [("e2e-run-failed", "exit %s %s" % (res.code, res.err[:200]), {"cli_c08_show": 1})]}
         v = []
         judged = 0
         for streams in (["--stdout"], ["--stderr"], ["--stdout", "--stderr"]):
             for tf in ([], ["t0"], ["t1"], ["t0", "t1"]):
-                for cf in ([], ["build"], ["test"], ["build", "test"]):
+                for cf in ([], ["build"], ["test"], ["build", "test"], ["build.release"], ["build", "build.release"]):
                     args = ["log", "show"] + streams + (["-t"] + tf if tf else []) + (["-c"] + cf if cf else [])
                     ls = r.mr(*args)
                     judged += 1
